@@ -867,3 +867,40 @@ Example restore_exact_neg_nonvacuous :
 Proof. vm_compute. split; reflexivity. Qed.
 Print Assumptions neg_ops_resolve_now.
 Print Assumptions restore_exact_neg.
+
+(* ---------------------------------------------------------------- the disk is a map: a write REPLACES *)
+(* (another simulation, or a re-run, writing into the same folder is just another writer of the same map) *)
+Definition disk_write (p : path) (g : dictv) (d : list (path * dictv)) : list (path * dictv) := (p, g) :: d.
+
+Lemma lookup_after_write : forall p g d, lookup p (disk_write p g d) = Some g.
+Proof.
+  intros p g d. unfold disk_write. simpl.
+  assert (E : path_eqb p p = true) by (apply path_eqb_eq; reflexivity). rewrite E. reflexivity.
+Qed.
+
+Lemma lookup_other_write : forall p q g d, p <> q -> lookup q (disk_write p g d) = lookup q d.
+Proof.
+  intros p q g d H. unfold disk_write. simpl. destruct (path_eqb q p) eqn:E; auto.
+  apply path_eqb_eq in E. congruence.
+Qed.
+
+(* For EVERY state — whatever some earlier writer left at that path — the iteration a simulation has just
+   written to disk reads back as what it saved: a read returns the CURRENT content, never an older one. *)
+Theorem disk_read_after_write : forall c s, pin_folder c = true -> (folder s =? 0) = false ->
+  store (step c SaveIter s) = store s ++ [OnDisk (folder s, length (store s))] /\
+  entry_vals c (step c SaveIter s) (OnDisk (folder s, length (store s))) = Some (mesh s, vals s).
+Proof.
+  intros c s P F. simpl. rewrite F. simpl. split; auto. rewrite P.
+  assert (E : path_eqb (folder s, length (store s)) (folder s, length (store s)) = true) by (apply path_eqb_eq; reflexivity).
+  rewrite E. reflexivity.
+Qed.
+
+Example second_writer_reads_its_own :
+  let c := cfg_demo true in
+  let sA := reach c [SetFolder 1; Solve [5;6]; SaveIter; GetResults 0]%N in
+  (* a second simulation starts from scratch on the SAME disk and the same folder *)
+  let sB := run c [SetFolder 1; Solve [7;8]; SaveIter; SetIter 0]%N
+              (mkst [0%N] (repeat 0 (nf c)) 0 1 [] 0 (disk sA) [] []) in
+  vals sB = [7;8]%N /\ store_vals c sB = [Some (0, [7;8]%N)].
+Proof. vm_compute. split; reflexivity. Qed.
+Print Assumptions disk_read_after_write.
